@@ -894,6 +894,9 @@ package dbft
 //@   loops 0
 //@   use U
 //@   at call *.onTimeout: assert [C16] @forced arg2 == true
+// a notification during the extended wait makes the waiting primary propose in this very call (the timer is armed for the
+// node's epoch whenever control is with the application: C10)
+//@   ensures [C16] @notificationProposes implies(old(self.txSubscriptionOn && gTimerH == self.BlockIndex && gTimerV == self.ViewNumber && !self.blockProcessed && self.MyIndex == self.PrimaryIndex && !rsor()) && notWatchOnly(), gBroadcasts > old(gBroadcasts))
 //@   ensures [C16] @ignoredUnlessSubscribed implies(!old(self.txSubscriptionOn), quiet() && gBroadcasts == old(gBroadcasts))
 //@   ensures [C05] @quiescent implies(old(self.blockProcessed), quiet() && gBroadcasts == old(gBroadcasts))
 //@ func (*DBFT).onTimeout
@@ -907,6 +910,8 @@ package dbft
 //@   at call *.sendPrepareRequest: assert [C16] @forceOnlyWhenDue arg0 == (self.ViewNumber != 0 || self.txSubscriptionOn || force)
 //@   at call *.subscribeForTransactions: assert [C16] @idleBackupSubscribes self.ViewNumber == 0 && self.MyIndex != self.PrimaryIndex && !force && !self.txSubscriptionOn && len(gPool) == 0
 //@   ensures [C10] @rearm implies(aview() && height == old(self.BlockIndex) && view == old(self.ViewNumber) && !old(self.blockProcessed) && notWatchOnly(), gTimerArms > old(gTimerArms) || self.blockProcessed)
+// a forced timeout of the current epoch makes a primary that has not proposed yet propose
+//@   ensures [C16] @forcedPrimaryProposes implies(force && height == old(self.BlockIndex) && view == old(self.ViewNumber) && old(!self.blockProcessed && self.MyIndex == self.PrimaryIndex && !rsor()) && notWatchOnly(), gBroadcasts > old(gBroadcasts))
 //@ func (*DBFT).OnReceive
 //@   loops 0
 //@   use U
@@ -1052,6 +1057,11 @@ package dbft
 //@   ensures [C10,C11] @armed gTimerH == self.BlockIndex && gTimerV == self.ViewNumber && gTimerD == delay && gTimerArms == old(gTimerArms) + 1
 //@   modifies gTimerH, gTimerV, gTimerD, gTimerArms
 //@ callers [C10] Timer.Reset : (*DBFT).changeTimer
+// the timer reports the epoch of its latest Reset (for the bundled timer this is proved: C18, (*Timer).Reset/post:latestEpoch)
+//@ extern Timer.Height
+//@   ensures result == gTimerH
+//@ extern Timer.View
+//@   ensures result == gTimerV
 //@ extern Timer.Extend
 //@   requires [C10] @nonneg arg0 >= 0
 //@   ghost gTimerExt = gTimerExt + 1
